@@ -374,7 +374,7 @@ pub fn flex_layout(
 
     // layout flex
     let mut major_remain = direction.major(ct.max()).saturating_sub(major_non_flex);
-    let mut major_flex = 0;
+    let mut major_flex: usize = 0;
     if major_remain > 0 && flex_total > 0.0 {
         let mut child_layout_opt = layout.child_mut();
         for child in children.iter() {
@@ -391,8 +391,10 @@ pub fn flex_layout(
                     let child_minor = direction.minor(child_layout.size());
 
                     // update counters
-                    major_remain -= child_major;
-                    major_flex += child_major;
+                    // the share is computed in f64 and may round up past the remaining space,
+                    // so a child is allowed to report (slightly) more than what is left
+                    major_remain = major_remain.saturating_sub(child_major);
+                    major_flex = major_flex.saturating_add(child_major);
                     minor = max(minor, child_minor);
                 }
             }
@@ -403,7 +405,7 @@ pub fn flex_layout(
     // unused space to be filled
     let unused = direction
         .major(ct.max())
-        .saturating_sub(major_non_flex + major_flex);
+        .saturating_sub(major_non_flex.saturating_add(major_flex));
     let (space_side, space_between) = if unused > 0 {
         match justify {
             Justify::Start => (0, 0),
